@@ -146,13 +146,29 @@ def r_name(ctx):
         ctx.ob("R-NAME", "Function.%s" % name, ok, msg, loc(fn, sets[0] if sets else fn))
 
 
+def _defs_closure(fn, name, depth=0, seen=None):
+    """Assignments defining `name`, followed through plain copies (x = y) -- helper inlining and hoisting introduce such copies."""
+    seen = seen if seen is not None else set()
+    if name in seen or depth > 4:
+        return []
+    seen.add(name)
+    out = []
+    for s in flow.stmts_of(fn, ast.Assign):
+        if dotted(s.targets[0]) == name:
+            if isinstance(s.value, ast.Name):
+                out += _defs_closure(fn, s.value.id, depth + 1, seen)
+            else:
+                out.append(s)
+    return out
+
+
 def _id_role(fn, g, a):
     """'function' | 'name' | 'sample<k>' for an argument of the naming format call."""
     if not isinstance(a, ast.Name):
         return "?" + src(a)
     if a.id == g.name_param:
         return "name"
-    defs = [s for s in flow.stmts_of(fn, ast.Assign) if dotted(s.targets[0]) == a.id]
+    defs = _defs_closure(fn, a.id)
     txt = " ".join(src(d.value) for d in defs)
     if "self.get_name()" in txt or "self.counter" in txt:
         return "function"
@@ -171,6 +187,7 @@ def _id_role(fn, g, a):
 def r_tabletype(ctx):
     repo = ctx.repo
     n = 0
+    nth = {}
     fbase = repo.cls("Function")
     for c in [fbase] + repo.subclasses(fbase):
         for fn in c.methods.values():
@@ -184,7 +201,8 @@ def r_tabletype(ctx):
                         is_df = any(isinstance(d.value, ast.Call) and call_name(d.value) == "DataFrame" for d in flow.stmts_of(fn, ast.Assign) if dotted(d.targets[0]) == v.id)
                     elif isinstance(v, ast.Call) and call_name(v) == "DataFrame":
                         is_df = True
-                    key = "%s.%s::tables_of_constraints[%s]" % (c.name, fn.name, anon_src(t.slice))
+                    nth[(c.name, fn.name)] = nth.get((c.name, fn.name), 0) + 1
+                    key = "%s.%s::store %d into tables_of_constraints" % (c.name, fn.name, nth[(c.name, fn.name)])
                     ctx.ob("R-TABLETYPE", key, is_df, "stores a DataFrame (what the reader iterates with iterrows / columns / index)" if is_df else
                            "stores `%s`, not a DataFrame: get_class_constraints_duals() calls .iterrows() on it and fails" % src(v)[:60], loc(fn, s))
                     alias = isinstance(v, ast.BinOp) and isinstance(v.op, ast.Mult) and any(isinstance(x, ast.List) and any(isinstance(e, (ast.List, ast.Dict)) for e in x.elts) for x in (v.left, v.right))
